@@ -26,6 +26,11 @@ try:
             print("cannot place demo file", name, where); sys.exit(3)
         os.makedirs(os.path.join(wt, os.path.dirname(path)), exist_ok=True)
         shutil.copy(os.path.join(src, name), os.path.join(wt, path)); placed.append(path)
+    if not placed:
+        for m in re.finditer(r"cp\s+(\S+)\s+(\S+\.go)", meta["demo_cmd"]):
+            name, path = os.path.basename(m.group(1)), m.group(2)
+            os.makedirs(os.path.join(wt, os.path.dirname(path)), exist_ok=True)
+            shutil.copy(os.path.join(src, name), os.path.join(wt, path)); placed.append(path)
     demo = meta["demo_cmd"]
     demo = demo.split("&&")[-1].strip() if "go test" in demo.split("&&")[-1] or "go run" in demo.split("&&")[-1] else demo
     if not placed:
